@@ -249,7 +249,18 @@ pub fn shard_c15(tier: &str, seed: u64, shard: u32, programs: u32, exclude: &BTr
                 *stats.entry("excluded_known".into()).or_insert(0) += 1;
                 continue;
             }
-            for m in &masks {
+            // besides xor masks: overwrite small bytes (tags, type and compression fields) with every
+            // other small value (turns one marker kind into another)
+            let orig = wr.img[wr.jidx].data.get(off as usize).copied().unwrap_or(0);
+            let mut ms: Vec<u8> = masks.clone();
+            if orig <= 4 {
+                for nv in 0u8..=4 {
+                    if nv != orig && !ms.contains(&(orig ^ nv)) {
+                        ms.push(orig ^ nv);
+                    }
+                }
+            }
+            for m in &ms {
                 out.evaluations += 1;
                 match damage_eval(&dir, &case, &wr, off, *m) {
                     Ok(res) => {
